@@ -468,7 +468,15 @@ fn check_messy(c: &MessyCase, ctx: &Ctx) -> Outcome {
     let r: Result<Option<usize>, Outcome> = (|| {
         must_ok(&build(ctx, &dir, "x", &samples, k, true, 1), "ska build")?;
         let (ts, ms) = (c.threads.to_string(), format!("{mfrac}"));
-        let o = run_ska(ctx, &dir, &["lo", "x.skf", "out", "--threads", &ts, "-m", &ms]);
+        // a third of the runs with k >= 15 position the SNPs on a reference (the ancestor): the output
+        // must be just as well formed
+        let with_ref = k >= 15 && (c.threads as usize + c.m as usize + samples.len()) % 3 == 0;
+        let mut args = vec!["lo", "x.skf", "out", "--threads", &ts, "-m", &ms];
+        if with_ref {
+            cli::write_fasta(&dir.join("ref.fa"), &["anc".to_string()], &[gen::bases_to_seq(&c.anc)], None);
+            args.extend_from_slice(&["-r", "ref.fa"]);
+        }
+        let o = run_ska(ctx, &dir, &args);
         if let Some(e) = o.infra() {
             return Err(Outcome::Infra(e));
         }
